@@ -37,6 +37,7 @@ import (
 	"github.com/google/gce-tcb-verifier/verify"
 	cpb "github.com/google/go-sev-guest/proto/check"
 	spb "github.com/google/go-sev-guest/proto/sevsnp"
+	"github.com/google/go-sev-guest/validate"
 	"google.golang.org/protobuf/proto"
 
 	"verifharness/core"
@@ -86,6 +87,7 @@ type world struct {
 	attack  *x509.CertPool
 	both    *x509.CertPool
 	m4      []byte
+	fw      []*fwbuild // round4.go: sixteen more firmware builds, made on first use
 }
 
 func (w *world) endoOf(in input) *endo {
@@ -115,8 +117,8 @@ func (w *world) bucket() *doubles.Getter {
 
 // vcfg is one way of configuring a validator.
 type vcfg struct {
-	kind      string // closure, family-closure (another family id), pair (SNPValidateFunc + SNPFamilyValidateFunc on one Options), sevvalidate (one shared SevValidateOptions)
-	source    string // arg, options, options+arg, getter
+	kind      string // closure, family-closure (another family id), pair (SNPValidateFunc + SNPFamilyValidateFunc on one Options), sevvalidate (one shared SevValidateOptions), guest (round4.go: the closure installed in go-sev-guest's certificate-table options)
+	source    string // arg, options, options+arg, getter, arg+getter (round4.go: the endorsement travels with the attestation and a getter is configured as well)
 	clock     string // valid, expired, notyet
 	trust     string // genuine, both, attacker, nil
 	digest    string // unset, right, wrong (closures only)
@@ -124,12 +126,16 @@ type vcfg struct {
 	snpNil    bool   // closures with vmsas == 0: Options.SNP left nil
 	base      string // sevvalidate: none, empty, meas4
 	overwrite bool
+	forced    bool // sevvalidate: TestonlyForceGCS (round4.go)
 }
 
 func (cf vcfg) String() string {
 	s := fmt.Sprintf("%s/%s clock=%s trust=%s vmsas=%d", cf.kind, cf.source, cf.clock, cf.trust, cf.vmsas)
 	if cf.kind == "sevvalidate" {
 		s += fmt.Sprintf(" base=%s overwrite=%v", cf.base, cf.overwrite)
+		if cf.forced {
+			s += " TestonlyForceGCS"
+		}
 	} else {
 		s += fmt.Sprintf(" digest=%s snpnil=%v", cf.digest, cf.snpNil)
 	}
@@ -168,7 +174,10 @@ func (w *world) basePolicy(name string) *cpb.Policy {
 	return nil
 }
 
-func (w *world) verifyOpts(cf vcfg) *verify.Options {
+func (w *world) verifyOpts(cf vcfg) *verify.Options { return w.verifyOptsWith(cf, nil) }
+
+// verifyOptsWith: g, when not nil, is the getter of a configuration that has one (nil: a bucket of its own).
+func (w *world) verifyOptsWith(cf vcfg, g verify.HTTPSGetter) *verify.Options {
 	o := &verify.Options{RootsOfTrust: w.trust(cf.trust), Now: w.clock(cf.clock)}
 	if !(cf.vmsas == 0 && cf.snpNil) {
 		o.SNP = &verify.SNPOptions{ExpectedLaunchVMSAs: cf.vmsas}
@@ -182,20 +191,30 @@ func (w *world) verifyOpts(cf vcfg) *verify.Options {
 	switch cf.source {
 	case "options", "options+arg":
 		o.Endorsement = proto.Clone(w.A.msg).(*epb.VMLaunchEndorsement)
-	case "getter":
-		o.Getter = w.bucket()
+	case "getter", "arg+getter":
+		if g != nil {
+			o.Getter = g
+		} else {
+			o.Getter = w.bucket()
+		}
 	}
 	return o
 }
 
-func (w *world) sevOpts(cf vcfg) *gcetcbendorsement.SevValidateOptions {
+func (w *world) sevOpts(cf vcfg) *gcetcbendorsement.SevValidateOptions { return w.sevOptsWith(cf, nil) }
+
+func (w *world) sevOptsWith(cf vcfg, g verify.HTTPSGetter) *gcetcbendorsement.SevValidateOptions {
 	o := &gcetcbendorsement.SevValidateOptions{RootsOfTrust: w.trust(cf.trust), Now: w.clock(cf.clock), ExpectedLaunchVmsas: cf.vmsas,
-		BasePolicy: w.basePolicy(cf.base), Overwrite: cf.overwrite}
+		BasePolicy: w.basePolicy(cf.base), Overwrite: cf.overwrite, TestonlyForceGCS: cf.forced}
 	switch cf.source {
 	case "options", "options+arg":
 		o.Endorsement = proto.Clone(w.A.msg).(*epb.VMLaunchEndorsement)
-	case "getter":
-		o.Getter = w.bucket()
+	case "getter", "arg+getter":
+		if g != nil {
+			o.Getter = g
+		} else {
+			o.Getter = w.bucket()
+		}
 	}
 	return o
 }
@@ -212,7 +231,7 @@ func (w *world) inUse(cf vcfg, in input) *endo {
 	switch cf.source {
 	case "options", "options+arg":
 		return w.A // the caller's endorsement is preferred over the one travelling with the attestation
-	case "arg":
+	case "arg", "arg+getter": // what travels with the attestation is used before anything is downloaded
 		return w.endoOf(in)
 	}
 	if cf.family() != sev.GCEUefiFamilyID || len(in.m) != 48 || in.kind == "unpublished" {
@@ -284,7 +303,7 @@ func (w *world) endorsementBytes(in input, b *bufs) []byte {
 }
 
 func (w *world) sevAtt(cf vcfg, in input, b *bufs) *spb.Attestation {
-	withEntry := cf.source == "arg" || cf.source == "options+arg"
+	withEntry := cf.source == "arg" || cf.source == "options+arg" || cf.source == "arg+getter"
 	if b == nil {
 		at := gen.SnpAttestation(in.m, w.vcek)
 		if withEntry {
@@ -313,19 +332,25 @@ type validator struct {
 	vopts *verify.Options
 	sopts *gcetcbendorsement.SevValidateOptions
 	fs    []func(*spb.Attestation, []byte) error
+	gopts *validate.Options // kind guest
 	vsnap verifySnap
 	ssnap sevSnap
 }
 
-func (w *world) newValidator(cf vcfg) *validator {
+func (w *world) newValidator(cf vcfg) *validator { return w.newValidatorWith(cf, nil) }
+
+func (w *world) newValidatorWith(cf vcfg, g verify.HTTPSGetter) *validator {
 	v := &validator{cf: cf}
 	if cf.kind == "sevvalidate" {
-		v.sopts = w.sevOpts(cf)
+		v.sopts = w.sevOptsWith(cf, g)
 		v.ssnap = snapSev(v.sopts)
 		return v
 	}
-	v.vopts = w.verifyOpts(cf)
+	v.vopts = w.verifyOptsWith(cf, g)
 	switch cf.kind {
+	case "guest":
+		v.fs = append(v.fs, verify.SNPValidateFunc(v.vopts))
+		v.gopts = guestOptions(v.fs[0])
 	case "family-closure":
 		v.fs = append(v.fs, verify.SNPFamilyValidateFunc(otherFamily, v.vopts))
 	case "pair":
@@ -342,8 +367,11 @@ func (w *world) call(v *validator, in input, k int, b *bufs) error {
 	if v.cf.kind == "sevvalidate" {
 		return gcetcbendorsement.SevValidate(context.Background(), w.sevAtt(v.cf, in, b), v.sopts)
 	}
+	if v.cf.kind == "guest" {
+		return validate.SnpAttestation(w.sevAtt(v.cf, in, b), v.gopts)
+	}
 	var arg []byte
-	if v.cf.source == "arg" || v.cf.source == "options+arg" {
+	if v.cf.source == "arg" || v.cf.source == "options+arg" || v.cf.source == "arg+getter" {
 		arg = w.endorsementBytes(in, b)
 	}
 	return v.fs[k%len(v.fs)](w.closureAtt(in, b), arg)
@@ -503,6 +531,10 @@ func runAudit(c *core.Ctx, w *world) {
 	famReconfig(c, w, auditBase+100_000, c.N(12, 96))
 	famReused(c, w, auditBase+200_000, c.N(18, 144))
 	famFlaky(c, w, auditBase+300_000, c.N(12, 96))
+	// fourth round (round4.go)
+	famKept(c, w, round4Base, c.N(16, 128))
+	famInflight(c, w, round4Base+100_000, c.N(18, 144))
+	famFamilies(c, w, round4Base+200_000, c.N(12, 96))
 }
 
 // ---------------------------------------------------------------------------------------------------------------------
